@@ -142,10 +142,24 @@ def check_dict(d, index=None):
 
 
 def check_graph(drv, g):
+    """None when the graph is valid; otherwise what is wrong.  Two independent validators:
+    the Python re-derivation above and, when a driver is given, the Coq-verified checker
+    validb (proved equivalent to the declarative predicate Valid: coq/Props/C01.v)."""
     import gen
     p = gen.graph_payload(g)
+    full = dict(p)
     idx = p.pop("_index")
-    return check_dict(p, idx)
+    why = check_dict(p, idx)
+    if drv is not None:
+        try:
+            vb = drv.call("validb", full)
+        except Exception as e:
+            vb = "driver: %s" % e
+        if vb is not True and not why:
+            return "verified checker validb rejects the graph (%r) although the Python validator accepts it" % (vb,)
+        if vb is True and why:
+            return why + " [but the verified checker validb accepts it]"
+    return why
 
 
 def float_collapse_signature(g, h, what):
